@@ -1,14 +1,22 @@
 (* Trusted glue shared by all model drivers: conversions between OCaml
    ints/strings and the extracted inductives (nat, positive, N, Z, byte).
-   Contains no model logic.  It is textually included after `open <Model>`. *)
+   Contains no model logic.  It is textually included after `open <Model>`;
+   each block is included only if the extracted module defines the type it needs. *)
+(*@needs positive*)
 let rec pos_of_int (i : int) : positive =
   if i <= 1 then XH else if i land 1 = 0 then XO (pos_of_int (i lsr 1)) else XI (pos_of_int (i lsr 1))
 let rec int_of_pos (p : positive) : int =
   match p with XH -> 1 | XO q -> 2 * int_of_pos q | XI q -> 2 * int_of_pos q + 1
+(*@needs n*)
 let n_of_int (i : int) : n = if i <= 0 then N0 else Npos (pos_of_int i)
 let int_of_n (x : n) : int = match x with N0 -> 0 | Npos p -> int_of_pos p
+(*@needs z*)
+let z_of_int (i : int) : z = if i = 0 then Z0 else if i > 0 then Zpos (pos_of_int i) else Zneg (pos_of_int (- i))
+let int_of_z (x : z) : int = match x with Z0 -> 0 | Zpos p -> int_of_pos p | Zneg p -> - (int_of_pos p)
+(*@needs nat*)
 let rec nat_of_int (i : int) : nat = if i <= 0 then O else S (nat_of_int (i - 1))
 let int_of_nat (x : nat) : int = let rec go a = function O -> a | S y -> go (a + 1) y in go 0 x
+(*@needs -*)
 let hexdigit c = match c with
   | '0'..'9' -> Char.code c - 48 | 'a'..'f' -> Char.code c - 87 | 'A'..'F' -> Char.code c - 55
   | _ -> failwith "bad hex"
